@@ -292,8 +292,8 @@ namespace occa {
       case primitiveType::uint32_ : return primitive(!p.value.uint32_);
       case primitiveType::int64_  : return primitive(!p.value.int64_);
       case primitiveType::uint64_ : return primitive(!p.value.uint64_);
-      case primitiveType::float_  : OCCA_FORCE_ERROR("Cannot apply operator ! to float type");   break;
-      case primitiveType::double_ : OCCA_FORCE_ERROR("Cannot apply operator ! to double type");   break;
+      case primitiveType::float_  : return primitive(!p.to<bool>());
+      case primitiveType::double_ : return primitive(!p.to<bool>());
       default: ;
     }
     return primitive();
@@ -566,8 +566,8 @@ namespace occa {
       case primitiveType::uint32_ : return primitive(a.to<uint32_t>() && b.to<uint32_t>());
       case primitiveType::int64_  : return primitive(a.to<int64_t>()  && b.to<int64_t>());
       case primitiveType::uint64_ : return primitive(a.to<uint64_t>() && b.to<uint64_t>());
-      case primitiveType::float_  : OCCA_FORCE_ERROR("Cannot apply operator && to float type");   break;
-      case primitiveType::double_ : OCCA_FORCE_ERROR("Cannot apply operator && to double type");   break;
+      case primitiveType::float_  : return primitive(a.to<bool>()     && b.to<bool>());
+      case primitiveType::double_ : return primitive(a.to<bool>()     && b.to<bool>());
       default: ;
     }
     return primitive();
@@ -585,8 +585,8 @@ namespace occa {
       case primitiveType::uint32_ : return primitive(a.to<uint32_t>() || b.to<uint32_t>());
       case primitiveType::int64_  : return primitive(a.to<int64_t>()  || b.to<int64_t>());
       case primitiveType::uint64_ : return primitive(a.to<uint64_t>() || b.to<uint64_t>());
-      case primitiveType::float_  : OCCA_FORCE_ERROR("Cannot apply operator || to float type");   break;
-      case primitiveType::double_ : OCCA_FORCE_ERROR("Cannot apply operator || to double type");   break;
+      case primitiveType::float_  : return primitive(a.to<bool>()     || b.to<bool>());
+      case primitiveType::double_ : return primitive(a.to<bool>()     || b.to<bool>());
       default: ;
     }
     return primitive();
